@@ -1024,6 +1024,9 @@ def _run_rxd(desc, rows, metas, dut, s, pf, ff, phase, mode):
 
     s.add_testbench(tb)
     s.run()
+    raw = outputs
+    # o_data_payload is only meaningful with o_data_strobe (otherwise it shows a stale FIFO slot): don't care
+    outputs = [[o[0], o[1] if o[0] else None] + o[2:] for o in raw]
     fails = []
     tags = {"rxd", "rxd:" + mode, "rxd:phase=%d" % phase}
     # what the 12 MHz side sees: one sample per usb cycle (at the usb edge)
